@@ -2,6 +2,7 @@ package broker
 
 import (
 	"bytes"
+	"time"
 	"encoding/json"
 
 	"github.com/emitter-io/stats"
@@ -176,6 +177,18 @@ func VerifC08Process(v *verifrt.T) {
 	e := c08new(v)
 	a, asock := hconn(e.svc, 0)
 	a.limit = new(rate.Limiter)
+	hLimitScript = nil
+	throttled := v.Bool("throttled")
+	if throttled {
+		// the read limiter allows one packet per 80 ms: the check right after a packet is
+		// refused, the one 50 ms later too, the third passes (natively the real limiter does
+		// exactly this; a throttled client is delayed, its packets are not lost)
+		if v.Symbolic() {
+			hLimitScript = []bool{false, true, true, false, true, true, false, true, true, false, true, true, false}
+		} else {
+			a.limit = rate.New(1, 80*time.Millisecond)
+		}
+	}
 	b, _ := hconn(e.svc, 1)
 	e.svc.connections = 2
 	e.ps.Subscribe(b, &event.Subscription{Conn: b.luid, Ssid: message.Ssid{7, 1, 2}, Channel: []byte("b/")})
@@ -188,7 +201,8 @@ func VerifC08Process(v *verifrt.T) {
 		(&mqtt.Subscribe{Header: mqtt.Header{QOS: 1}, MessageID: 2, Subscriptions: []mqtt.TopicQOSTuple{{Topic: []byte(e.rw + "/a/")}}}).EncodeTo(&stream)
 	}
 	data := append([]byte(nil), stream.Bytes()...)
-	switch v.Choice(3, "ending") {
+	ending := v.Choice(3, "ending")
+	switch ending {
 	case 0: // the socket closes at an arbitrary byte
 		cut := v.Choice(len(data)+1, "cut")
 		data = data[:cut]
@@ -207,6 +221,10 @@ func VerifC08Process(v *verifrt.T) {
 	v.Assert(asock.closed, "C08.process.socket-closed")
 	v.Assert(e.svc.connections == 1, "C08.process.connection-counted-out-once")
 	v.Assert(e.trie.VerifNodes() == 4, "C08.process.index-back-to-baseline")
+	if ending == 1 {
+		// a complete session: CONNACK, SUBACK, SUBACK or UNSUBACK - every request answered, throttled or not
+		v.Assert(len(asock.writes) == 3, "C08.process.every-request-of-a-complete-session-answered")
+	}
 	v.Observe("acks", uint64(len(asock.writes)))
 	v.Observe("unread", uint64(len(asock.in)))
 }
